@@ -77,6 +77,43 @@ macro_rules! leaf {
     };
 }
 
+macro_rules! negleaf {
+    ($h:ident, $name:expr, $n:expr, $min:expr, $call:expr) => {
+        #[cfg_attr(kani, kani::proof)]
+        #[cfg_attr(kani, kani::unwind(22))]
+        #[cfg_attr(kani, kani::stub(alloc::fmt::format, crate::verif_rt::fmt_stub))]
+        #[cfg_attr(kani, kani::stub(core::str::slice_error_fail, crate::verif_rt::slice_fail_stub))]
+        pub fn $h() {
+            let mut ctx = PCtx::default();
+            let mut out = POut::default();
+            let (buf, len, mag) = sym_token(3, $n);
+            let text: &str = unsafe { std::str::from_utf8_unchecked(&buf[..len]) };
+            let r = ($call)(&mut ctx, &mut out, text);
+            let fits = mag <= $min as u64; // -mag >= MIN
+            match &r {
+                Ok(v) => {
+                    vassert!(concat!("C11.constant.", $name, ".value"), fits && (*v as i64) == -(mag as i64));
+                }
+                Err(_) => {
+                    vassert!(concat!("C11.constant.", $name, ".rejected_only_when_out_of_range"), !fits);
+                }
+            }
+            vcover!(concat!("C11.constant.", $name, ".cover.min"), mag == $min as u64);
+            std::mem::forget(r);
+            std::mem::forget(ctx);
+            std::mem::forget(out);
+        }
+    };
+}
+
+negleaf!(c11n_sbyte_neg3, "s_byte_num.negative", 3, 128u32, |c: &mut PCtx, o: &mut POut, t| p_s_byte_num__RE_NEG(c, o, "", (0, t, 0)));
+negleaf!(c11n_sbyte_neg5, "s_byte_num.negative", 5, 128u32, |c: &mut PCtx, o: &mut POut, t| p_s_byte_num__RE_NEG(c, o, "", (0, t, 0)));
+negleaf!(c11n_sword_neg5, "s_word_num.negative", 5, 32768u32, |c: &mut PCtx, o: &mut POut, t| p_s_word_num__RE_NEG(c, o, "", (0, t, 0)));
+negleaf!(c11n_sword_neg11, "s_word_num.negative", 11, 32768u32, |c: &mut PCtx, o: &mut POut, t| p_s_word_num__RE_NEG(c, o, "", (0, t, 0)));
+negleaf!(c11n_sbyte_neg11, "s_byte_num.negative", 11, 128u32, |c: &mut PCtx, o: &mut POut, t| p_s_byte_num__RE_NEG(c, o, "", (0, t, 0)));
+leaf!(c11n_word_dec11, "u_word_num.decimal", 0, 11, 65535u32, u16, |c: &mut PCtx, o: &mut POut, t| p_u_word_num__RE_NUM(c, o, "", (0, t, 0)));
+leaf!(c11n_word_hex9, "u_word_num.hex", 1, 9, 65535u32, u16, |c: &mut PCtx, o: &mut POut, t| p_u_word_num__RE_HEX(c, o, "", (0, t, 0)));
+
 leaf!(c11n_word_dec5, "u_word_num.decimal", 0, 5, 65535u32, u16, |c: &mut PCtx, o: &mut POut, t| p_u_word_num__RE_NUM(c, o, "", (0, t, 0)));
 leaf!(c11n_word_hex4, "u_word_num.hex", 1, 4, 65535u32, u16, |c: &mut PCtx, o: &mut POut, t| p_u_word_num__RE_HEX(c, o, "", (0, t, 0)));
 leaf!(c11n_word_hex5, "u_word_num.hex", 1, 5, 65535u32, u16, |c: &mut PCtx, o: &mut POut, t| p_u_word_num__RE_HEX(c, o, "", (0, t, 0)));
@@ -89,6 +126,8 @@ leaf!(c11n_byte_bin8, "u_byte_num.binary", 2, 8, 255u32, u8, |c: &mut PCtx, o: &
 leaf!(c11n_byte_bin9, "u_byte_num.binary", 2, 9, 255u32, u8, |c: &mut PCtx, o: &mut POut, t| p_u_byte_num__RE_BIN(c, o, "", (0, t, 0)));
 
 pub const TABLE: &[(&str, fn())] = &[
+    ("c11n_sbyte_neg3", c11n_sbyte_neg3), ("c11n_sbyte_neg5", c11n_sbyte_neg5), ("c11n_sword_neg5", c11n_sword_neg5),
+    ("c11n_sword_neg11", c11n_sword_neg11), ("c11n_sbyte_neg11", c11n_sbyte_neg11), ("c11n_word_dec11", c11n_word_dec11), ("c11n_word_hex9", c11n_word_hex9),
     ("c11n_word_dec5", c11n_word_dec5), ("c11n_word_hex4", c11n_word_hex4), ("c11n_word_hex5", c11n_word_hex5),
     ("c11n_word_bin16", c11n_word_bin16), ("c11n_word_bin17", c11n_word_bin17),
     ("c11n_byte_dec3", c11n_byte_dec3), ("c11n_byte_hex2", c11n_byte_hex2), ("c11n_byte_hex3", c11n_byte_hex3),
